@@ -11,6 +11,17 @@ const INFINITY: i32 = 50000;
 
 const INPUT_POLL_INTERVAL: u64 = 16383;
 
+#[cfg(jence_verif)]
+pub fn verif_consts() {
+    println!("MAX_PLY {}", MAX_PLY);
+    println!("FULL_DEPTH_MOVES {}", FULL_DEPTH_MOVES);
+    println!("REDUCTION_LIMIT {}", REDUCTION_LIMIT);
+    println!("MATE_VALUE {}", MATE_VALUE);
+    println!("MATE_BOUND {}", MATE_BOUND);
+    println!("INFINITY {}", INFINITY);
+    println!("INPUT_POLL_INTERVAL {}", INPUT_POLL_INTERVAL);
+}
+
 pub fn search_random(game: &mut Game) {
     let moves = generate_moves(&mut *game, MoveTypes::All);
     let rand = rand::thread_rng().gen_range(0..moves.len());
@@ -19,6 +30,8 @@ pub fn search_random(game: &mut Game) {
 
 //Start a search, max_time = -1 for no limit
 pub fn search(game: &mut Game, depth: i8, max_time: i64, io_receiver: &IoWrapper, tt: &mut TranspositionTable, rep_table: &mut RepetitionTable) -> SearchResult {
+    #[cfg(jence_verif)]
+    if crate::verif::on_search_entry(depth, max_time) { return SearchResult::new(NULL_MOVE, 0, 0, 0, false, 0); }
 
     let mut envir = SearchEnv::new(max_time, io_receiver, tt, rep_table);
 
@@ -68,6 +81,9 @@ pub fn search(game: &mut Game, depth: i8, max_time: i64, io_receiver: &IoWrapper
         current_depth += 1;
     }
 
+    #[cfg(jence_verif)]
+    crate::verif::on_search_end(envir.ply, envir.repetition_table.index, envir.stopping);
+
     print!("bestmove {}\n", envir.pv_table[0][0].to_uci());
 
     SearchResult::new(envir.pv_table[0][0], envir.nodes, score, current_depth - 1, !envir.stopping, envir.tt_hits)
@@ -86,6 +102,8 @@ fn enable_pv_scoring(moves: &MoveList, envir: &mut SearchEnv) {
 
 #[inline]
 fn negamax(game: &mut Game, depth: u8, alpha: i32, beta: i32, envir: &mut SearchEnv) -> i32 {
+    #[cfg(jence_verif)]
+    crate::verif::on_node(1, game, envir.ply, depth, alpha, beta, envir.nodes, envir.stopping);
     
     let is_pv_node = (beta - alpha) > 1;
 
@@ -93,6 +111,8 @@ fn negamax(game: &mut Game, depth: u8, alpha: i32, beta: i32, envir: &mut Search
     if envir.ply != 0 && !is_pv_node {
         score = envir.transposition_table.probe(game.zobrist_hash, depth, alpha, beta, envir.ply);
         if score != UNKNOWN_SCORE {
+            #[cfg(jence_verif)]
+            crate::verif::on_tt_hit(envir.ply, game.zobrist_hash, score);
             envir.tt_hits += 1;
             return score;
         }
@@ -101,6 +121,8 @@ fn negamax(game: &mut Game, depth: u8, alpha: i32, beta: i32, envir: &mut Search
     envir.pv_lengths[envir.ply as usize] = envir.ply as usize;
 
     if envir.ply > 0 && envir.repetition_table.is_now_in_threefold_repetition() {
+        #[cfg(jence_verif)]
+        crate::verif::on_rep(envir.ply, game.zobrist_hash, envir.repetition_table.table[envir.repetition_table.index]);
         return 0;
     }
 
@@ -108,6 +130,9 @@ fn negamax(game: &mut Game, depth: u8, alpha: i32, beta: i32, envir: &mut Search
     if envir.ply >= MAX_PLY as u8 - 1  {
         return evaluate(&game);
     }
+
+    #[cfg(jence_verif)]
+    if envir.nodes & INPUT_POLL_INTERVAL != 0 && crate::verif::extra_poll(envir.nodes) { envir.poll_input() }
 
     if envir.nodes & INPUT_POLL_INTERVAL == 0 {
         envir.poll_input()
@@ -256,6 +281,8 @@ fn negamax(game: &mut Game, depth: u8, alpha: i32, beta: i32, envir: &mut Search
 
     //Mate & Draw
     if legal_moves == 0 {
+        #[cfg(jence_verif)]
+        crate::verif::on_verdict(envir.ply, game.zobrist_hash, in_check);
         if in_check {
             return -MATE_VALUE + envir.ply as i32;
         }
@@ -272,6 +299,11 @@ fn negamax(game: &mut Game, depth: u8, alpha: i32, beta: i32, envir: &mut Search
 
 #[inline]
 fn quiescence(game: &mut Game, alpha: i32, beta: i32, envir: &mut SearchEnv) -> i32 {
+    #[cfg(jence_verif)]
+    crate::verif::on_node(2, game, envir.ply, 0, alpha, beta, envir.nodes, envir.stopping);
+    #[cfg(jence_verif)]
+    if envir.nodes & INPUT_POLL_INTERVAL != 0 && crate::verif::extra_poll(envir.nodes) { envir.poll_input() }
+
     if envir.nodes & INPUT_POLL_INTERVAL == 0 {
         envir.poll_input()
     }
@@ -414,6 +446,8 @@ impl <'a>SearchEnv<'a> {
 
     pub fn insert_pv_node(&mut self, cmove: Move) {
         let ply = self.ply as usize;
+        #[cfg(jence_verif)]
+        crate::verif::on_pv_insert(self.ply, crate::verif::move_data(&cmove));
 
         self.pv_table[ply][ply] = cmove;
         
@@ -425,6 +459,11 @@ impl <'a>SearchEnv<'a> {
     }
 
     pub fn poll_input(&mut self) {
+        #[cfg(jence_verif)]
+        if let Some(stop) = crate::verif::on_poll(self.nodes) {
+            if stop { self.stopping = true; }
+            return;
+        }
         if (self.max_time != -1 && self.start_time.elapsed().unwrap().as_millis() as i64 >= self.max_time) || self.io_receiver.try_read_line().is_some() {
             self.stopping = true;
             return;
